@@ -294,6 +294,13 @@ class Exec:
             r = self.equal(x, y, st, node)
             return r if isinstance(op, ast.Eq) else z3.Not(r)
         x, y = zint(self.need_not_none(x, st, node)), zint(self.need_not_none(y, st, node))
+        if isinstance(x, TupV) and isinstance(y, TupV) and len(x.items) == len(y.items) and x.items:
+            # lexicographic order of tuples
+            strict = {ast.Lt: ast.Lt, ast.LtE: ast.Lt, ast.Gt: ast.Gt, ast.GtE: ast.Gt}[type(op)]()
+            res = self.compare(op, x.items[-1], y.items[-1], st, node, spec)
+            for a_, b_ in reversed(list(zip(x.items[:-1], y.items[:-1]))):
+                res = z3.Or(self.compare(strict, a_, b_, st, node, spec), z3.And(self.equal(a_, b_, st, node), res))
+            return res
         if isinstance(x, CArr) and isinstance(y, CArr):
             x, y = x.off, y.off
         if isinstance(x, PyConst) and isinstance(y, PyConst):
@@ -468,6 +475,16 @@ class Exec:
             if (lo_c is None or z3.is_int_value(lo_c)) and (hi_c is None or z3.is_int_value(hi_c)):
                 return ListV(base.items[slice(None if lo_c is None else lo_c.as_long(),
                                               None if hi_c is None else hi_c.as_long())])
+        if isinstance(base, ListV):
+            lo_c = None if lo is None else z3.simplify(zint(lo))
+            hi_c = None if hi is None else z3.simplify(zint(hi))
+            if (lo_c is None or (z3.is_int_value(lo_c) and lo_c.as_long() == 0)) and hi_c is not None and z3.is_int_value(hi_c) and hi_c.as_long() >= 0:
+                k_ = hi_c.as_long()
+                out = []
+                for j, (g, it) in enumerate(base.items):
+                    before = z3.Sum(*[z3.If(gg, 1, 0) for gg, _ in base.items[:j]]) if j else z3.IntVal(0)
+                    out.append((z3.simplify(z3.And(g, before < k_)), it))
+                return ListV(out)
         if isinstance(base, TupV):
             lo_c = None if lo is None else z3.simplify(zint(lo))
             hi_c = None if hi is None else z3.simplify(zint(hi))
